@@ -216,7 +216,14 @@ func cliCase(prop string) func(c *Case, cov *Cov) []*Violation {
 		of := f.Name() + ".out"
 		defer os.Remove(of)
 		cmd := exec.Command(bin, "-test.run=^TestClisim$")
-		cmd.Env = append(os.Environ(), "CLISIM_MODE=case", "CLISIM_PROP="+prop, "CLISIM_CASE="+f.Name(), "CLISIM_OUT="+of)
+		tb := "all"
+		if c.Run%2 == 1 {
+			tb = ""
+		}
+		if v, ok := os.LookupEnv("CLISIM_TRACEBACK_FORCE"); ok {
+			tb = v
+		}
+		cmd.Env = append(os.Environ(), "CLISIM_TRACEBACK="+tb, "CLISIM_MODE=case", "CLISIM_PROP="+prop, "CLISIM_CASE="+f.Name(), "CLISIM_OUT="+of)
 		if ob, err := cmd.CombinedOutput(); err != nil {
 			panic(fmt.Sprintf("clisim driver: %v: %s", err, clipS(string(ob), 800)))
 		}
@@ -262,7 +269,11 @@ func postCLI(prop string) func(seed uint64, tier string, cov *Cov) ([]*Violation
 				of.Close()
 				defer os.Remove(of.Name())
 				cmd := exec.Command(bin, "-test.run=^TestClisim$", "-test.timeout=6h")
-				cmd.Env = append(os.Environ(), "CLISIM_MODE=batch", "CLISIM_PROP="+prop, fmt.Sprintf("CLISIM_SEED=%d", seed), fmt.Sprintf("CLISIM_OFFSET=%d", w), fmt.Sprintf("CLISIM_STRIDE=%d", workers), fmt.Sprintf("CLISIM_RUNS=%d", runs), "CLISIM_OUT="+of.Name(), "GOMAXPROCS=2")
+				tb := "all"
+				if w%2 == 1 {
+					tb = "" // GOTRACEBACK unset: the "To see all goroutines" hint is printed for single-goroutine dumps
+				}
+				cmd.Env = append(os.Environ(), "CLISIM_TRACEBACK="+tb, "CLISIM_MODE=batch", "CLISIM_PROP="+prop, fmt.Sprintf("CLISIM_SEED=%d", seed), fmt.Sprintf("CLISIM_OFFSET=%d", w), fmt.Sprintf("CLISIM_STRIDE=%d", workers), fmt.Sprintf("CLISIM_RUNS=%d", runs), "CLISIM_OUT="+of.Name(), "GOMAXPROCS=2")
 				if ob, err := cmd.CombinedOutput(); err != nil {
 					ch <- res{nil, fmt.Errorf("clisim driver: %v: %s", err, clipS(string(ob), 1500))}
 					return
